@@ -39,6 +39,12 @@ def run_tie2(prop, P, tier, rng, replay=None, facts=None):
     seen_nontrivial = set()
     for spec in specs:
         stream = spec['stream']
+        if 'custom' in spec:
+            r = spec['custom'](tier, rng, facts or {})
+            cov['streams'][stream] = r['coverage']; cov['evaluations'] += r['evaluations']
+            seen_nontrivial.update(r['nontrivial']); problems += r['problems']; rules.append('%s: %s' % (stream, spec['rule']))
+            cov['samples'] += r.get('samples', [])
+            continue
         cfgs = spec.get('cfgs', {}).get(tier, [('cfg_default', 'debug')])
         cases = []
         if replay:
@@ -553,3 +559,72 @@ PTR_STREAM_C12 = dict(PTR_STREAM); PTR_STREAM_C12['ctx'] = dict(report_f3=False)
 PROPS['C12'] = dict(streams=[PTR_STREAM_C12, mech_stream([{'union'}, None, {'union'}])], side_obligations=c12_side,
                     facts_view=lambda f: (f.get('pointers') or {}).get('union'),
                     assumptions=MECH_ASSUME + ['blocks from the global allocator are at least 8-aligned (the request always has alignment >= 8: C05)'])
+
+
+# ============================================================================
+# abort stream (C16): child processes
+# ============================================================================
+import subprocess
+ABORT_COUNTS = [1, 2, 2 ** 31, 2 ** 32, 2 ** 63 - 2, 2 ** 63 - 1, 2 ** 63, 2 ** 63 + 1, 2 ** 64 - 2, 2 ** 64 - 1]
+ABORT_ENTRIES = {0: 'Arc<T>::clone', 1: 'Arc<[T]>::clone', 2: 'Arc<dyn>::clone', 3: 'ThinArc::clone', 4: 'OffsetArc::clone', 5: 'OffsetArc::clone_arc',
+                 6: 'ArcBorrow::clone_arc', 7: 'ArcUnion::clone (first)', 8: 'ArcUnion::clone (second)', 9: 'clone inside ThinArc::with_arc',
+                 10: 'clone inside with_raw_offset_arc', 11: 'clone inside ArcBorrow::with_arc', 12: 'Arc<HeaderSlice<H,[T]>>::clone'}
+
+def custom_abort(tier, rng, facts):
+    cov = dict(children=0, aborted=0, succeeded=0, configs=[]); problems = []; nontrivial = set(); samples = []
+    cfgs = [('cfg_default', 'debug'), ('cfg_nostd', 'debug')] if tier != 'thorough' else [('cfg_default', 'debug'), ('cfg_default', 'release'), ('cfg_nostd', 'debug'), ('cfg_nostd', 'release'), ('cfg_all', 'release')]
+    for cfg, profile in cfgs:
+        with vlib.Lock():
+            rc, out, exe = vlib.build_harness(cfg, profile)
+        if rc != 0:
+            problems.append(('build', 'harness does not build (%s/%s): %s' % (cfg, profile, out[-800:]), dict(kind='unproved', stage='harness-build', output=out[-3000:]))); continue
+        cov['configs'].append('%s/%s' % (cfg, profile))
+        jobs = [(e, c) for e in sorted(ABORT_ENTRIES) for c in ABORT_COUNTS]
+        procs = []
+        def launch(e, c):
+            return subprocess.Popen([exe, 'abortchild', str(e), str(c)], stdout=subprocess.PIPE, stderr=subprocess.DEVNULL, env=vlib.ENV)
+        i = 0
+        results = []
+        while i < len(jobs) or procs:
+            while i < len(jobs) and len(procs) < vlib.NPROC:
+                procs.append((jobs[i], launch(*jobs[i]))); i += 1
+            (e, c), p = procs.pop(0)
+            try:
+                so, _ = p.communicate(timeout=60)
+            except subprocess.TimeoutExpired:
+                p.kill(); so = b'TIMEOUT'
+            results.append((e, c, p.returncode, so.decode('utf-8', 'replace').split()))
+        for e, c, rc2, words in results:
+            cov['children'] += 1
+            expect_abort = c > 2 ** 63 - 1
+            case = dict(stream='abort', cfg=cfg, profile=profile, entry=ABORT_ENTRIES[e], start_count=c)
+            nontrivial.add('%d:%d' % (e, c))
+            if len(samples) < 3: samples.append(dict(case, exit=rc2, output=words))
+            if expect_abort:
+                if rc2 == -6 and words == ['MARK']:
+                    cov['aborted'] += 1
+                else:
+                    why = ('a clone through %s with the count at %d did not abort the process: exit=%s output=%s' % (ABORT_ENTRIES[e], c, rc2, words))
+                    if 'CAUGHT' in words: why = 'a clone through %s with the count at %d raised a CATCHABLE panic instead of aborting' % (ABORT_ENTRIES[e], c)
+                    problems.append(('oracle', why, dict(case, kind='impl-counterexample', exit=rc2, output=words, why=why)))
+            else:
+                if rc2 == 0 and words == ['MARK', 'AFTER', str(c + 1)]:
+                    cov['succeeded'] += 1
+                else:
+                    why = 'a clone through %s with the count at %d (below the limit) did not succeed with count %d: exit=%s output=%s' % (ABORT_ENTRIES[e], c, c + 1, rc2, words)
+                    problems.append(('oracle', why, dict(case, kind='impl-counterexample', exit=rc2, output=words, why=why)))
+    return dict(coverage=cov, evaluations=cov['children'], nontrivial=nontrivial, problems=problems[:8], samples=samples)
+
+def c16_side(facts):
+    P = facts.get('protocol') or {}
+    return [('guard_compares_old_value_with_isize_max', P.get('guard', {}).get('form') == 'GuardOldGt' and P.get('max_refcount_val') == 2 ** 63 - 1 and bool(P.get('clone_shape')),
+             'guard %s, MAX_REFCOUNT = %s' % (P.get('guard'), P.get('max_refcount'))),
+            ('guard_action_is_abort', P.get('guard', {}).get('action') == 'abort', str(P.get('guard'))),
+            ('abort_is_process_abort_or_double_panic', P.get('abort_std') == 'AbortProcess' and P.get('abort_nostd') == 'AbortDoublePanic', '%s / %s' % (P.get('abort_std'), P.get('abort_nostd'))),
+            ('atomic_sites_closed_world', bool(P.get('closed')), 'sites outside the modelled functions: %s' % P.get('unmodelled_sites'))]
+
+PROPS['C16'] = dict(streams=[dict(stream='abort', custom=custom_abort,
+                                  rule='one child process per (clone entry point, starting count): 13 entry points (Arc of sized/slice/trait object/header-slice, ThinArc, OffsetArc::clone/clone_arc, ArcBorrow::clone_arc, ArcUnion first/second, clones inside the three callback forms) x 10 starting counts {1, 2, 2^31, 2^32, isize::MAX-1, isize::MAX, +1, +2, usize::MAX-1, usize::MAX} preset through the counter address the hook reports, in std and no_std builds; expected: count+1, or SIGABRT with no output after the marker; every case is non-trivial; distinct = distinct (entry, count)')],
+                    side_obligations=c16_side, facts_view=lambda f: dict((k, (f.get('protocol') or {}).get(k)) for k in ['guard', 'max_refcount', 'abort_std', 'abort_nostd', 'inc_ord']),
+                    assumptions=['a panic raised while a panic is already unwinding aborts the process (Rust runtime behaviour; exercised by the no_std children)',
+                                 'the count is preset by writing to the address the verification hook reports for the counter'])
